@@ -34,9 +34,11 @@ UNITS = {
     'compose': {'rlimit': 50, 'timeout': 120},
 }
 
+CRC_KANI = ['crc_byte_step_is_bitwise', 'masked_spec', 'table16_row0', 'table_xor_linear', 'table16_succ_00', 'table16_succ_01', 'table16_succ_02', 'table16_succ_03', 'table16_succ_04', 'table16_succ_05', 'table16_succ_06', 'table16_succ_07', 'table16_succ_08', 'table16_succ_09', 'table16_succ_10', 'table16_succ_11', 'table16_succ_12', 'table16_succ_13', 'table16_succ_14']
+
 PROPS = {
     'C15': {
-        'units': ['builder', 'registry', 'encode', 'bytesio'],
+        'units': ['builder', 'registry', 'encode', 'bytesio', 'cw'],
         'kani': ['to_le_bytes_spec'],
         'scans': ['determinism'],
         'own': {'builder': r'MapBuilder|SetBuilder|Builder::(new|new_type|finish|into_inner|bytes_written|get_ref|insert|add|memory|into_fst|extend_iter)$|from_iter', 'registry': r'Registry::hash|Registry::entry',
@@ -81,8 +83,9 @@ PROPS = {
         'assumptions': [],
     },
     'C09': {
-        'units': ['encode', 'layout', 'decode', 'builder', 'bytesio'],
-        'kani': ['read_le','unpack_le','to_le_bytes_spec','pack_roundtrip','common_tables','common_tables_pinned'],
+        'units': ['encode', 'layout', 'decode', 'builder', 'bytesio', 'cw', 'crc'],
+        # the footer's checksum is part of the format: the masked CRC-32C (a mask or table changed on the writing and the verifying side alike still round-trips)
+        'kani': ['read_le','unpack_le','to_le_bytes_spec','pack_roundtrip','common_tables','common_tables_pinned'] + CRC_KANI,
         'own': {'builder': r'Builder::(compile|compile_from|new_type|new|into_inner|insert_output)$'},
         'level_text': 'Proof: encoder and decoder are verified against one forward-layout specification written from the format description '
                       '(header 3 + type; the three node forms; state byte; sizes nibbles; reverse transition order; index iff more than 32 '
@@ -267,8 +270,9 @@ PROPS = {
         'assumptions': [],
     },
     'C10': {
-        'units': ['open', 'decode'],
-        'kani': ['read_le','unpack_le','common_tables','find_input_scan','common_tables_pinned'],
+        'units': ['open', 'decode', 'crc'],
+        # a version-3 file of an earlier build verifies only if the checksum function is still the format's
+        'kani': ['read_le','unpack_le','common_tables','find_input_scan','common_tables_pinned'] + CRC_KANI,
         'own': {'open': r'Fst::(new|verify|as_ref|map_data|into_inner|as_inner)|u64_to_usize|From|::from$|map_data'},  # decode: every obligation (the decoder is version-parametric)
         'level_text': 'Proof: Fst::new is verified generically over D: AsRef<[u8]> against per-version footer offsets written from '
                       'the format description: versions 1-3 with at least 32/36 bytes open with the footer fields at the '
